@@ -25,7 +25,8 @@ import (
 func init() {
 	c19Extra = c19GramRun
 	c19ExtraGen = func(r *Rand, tier string) []string {
-		return append(c19GramGen(r, tier), c19F64Gen(r, tier)...) // c19f64.go: the IEEE instance
+		out := append(c19GramGen(r, tier), c19F64Gen(r, tier)...) // c19f64.go: the IEEE instance
+		return append(out, c19EmptyGen(r, tier)...)               // c19empty.go: empty / blank-only groups at every position
 	}
 }
 
